@@ -327,7 +327,7 @@ pub fn batch_case(kind: Kind) -> impl Strategy<Value = BatchCase> {
                             continue;
                         }
                         uniq += 1;
-                        specs.push(DetSpec { obj, t: clock[s], jx, jy, js: 0.0, conf, has_feat, feat_var: (uniq % 251) as u8, quality });
+                        specs.push(DetSpec { obj, t: clock[s], jx, jy, js: 0.0, conf, has_feat, feat_var: (uniq % 251) as u8, quality, part: (1.0, 0.0) });
                     }
                     if !specs.is_empty() {
                         b.push((scene_ids[s], specs));
